@@ -141,7 +141,7 @@ func record(mode, wl string) *preRun {
 	db := consensus.VerifNewRecDB(rec)
 	dir := tmpDir()
 	defer os.RemoveAll(dir)
-	n, err := consensus.VerifBootFull(consensus.VerifFullConfig{Key: valKey, Funded: []common.Address{userAddr}, Archive: mode == "flush", DB: db, WalDir: dir, Rec: rec})
+	n, err := consensus.VerifBootFull(consensus.VerifFullConfig{Key: valKey, Funded: []common.Address{userAddr}, Archive: mode == "flush", Snapshot: strings.HasSuffix(mode, "+snap"), DB: db, WalDir: dir, Rec: rec})
 	if err != nil {
 		fmt.Println("MACHINERY-ERROR: the recorded run cannot boot:", err)
 		os.Exit(2)
@@ -339,7 +339,7 @@ func restart(mode, wl string, dbOps [][]consensus.VerifOp, wal []byte, env strin
 			l2.cuts = append(l2.cuts, cut{idx: idx, walSynced: synced, walTail: tail, height: h})
 		}
 	}
-	n, err := consensus.VerifBootFull(consensus.VerifFullConfig{Key: valKey, Funded: []common.Address{userAddr}, Archive: mode == "flush", DB: db2, WalDir: dir, WalImage: wal, Rec: rec2})
+	n, err := consensus.VerifBootFull(consensus.VerifFullConfig{Key: valKey, Funded: []common.Address{userAddr}, Archive: mode == "flush", Snapshot: strings.HasSuffix(mode, "+snap"), DB: db2, WalDir: dir, WalImage: wal, Rec: rec2})
 	if n != nil {
 		defer n.StopFull()
 	}
@@ -566,7 +566,10 @@ func main() {
 	report.Supervise("C05", "fault_enumeration", "R1:node-process-dies",
 		"while lives are recorded / restarted nodes run: the process of a node in that situation ends (it does not come back without manual repair)")
 	r = report.New("C05", "fault_enumeration")
-	modes := []string{"flush", "keep"}
+	modes := []string{"flush", "keep", "keep+snap"}
+	if v := os.Getenv("C05_MODES"); v != "" {
+		modes = strings.Split(v, ",")
+	}
 	wls := []string{"W2"}
 	if r.Thorough() {
 		wls = []string{"W1", "W2"}
